@@ -84,6 +84,33 @@ class Tracer:
                     self.partial[t.dest.local].append((b.idx, None, t.dest, None))
             if t.kind == "yield" and t.dest is not None and t.dest.is_local():
                 self.defs[t.dest.local].append(("yield", b.idx, None))
+        # values exchanged through mem::swap(&mut a, &mut b)
+        for b in body.blocks:
+            if b.cleanup or b.term.kind != "call":
+                continue
+            t = b.term
+            if t.callee() and short(t.callee()) == "mem::swap" and len(t.args) == 2:
+                targets = []
+                def ref_target(l, depth=0):
+                    if depth > 4:
+                        return None
+                    for kind, bb, idx in self.defs.get(l, []):
+                        if kind == "assign":
+                            rv = body.blocks[bb].stmts[idx].rv
+                            if rv.kind == "ref":
+                                if rv.place.is_local():
+                                    return rv.place.local
+                                if rv.place.proj == ["deref"]:
+                                    return ref_target(rv.place.local, depth + 1)
+                    return None
+                for a in t.args:
+                    L = None
+                    if a.kind in ("move", "copy") and a.place.is_local():
+                        L = ref_target(a.place.local)
+                    targets.append(L)
+                for i in (0, 1):
+                    if targets[i] is not None:
+                        self.defs[targets[i]].append(("swap", b.idx, 1 - i))
         self._memo = {}
         self._agg_site = None
 
@@ -308,6 +335,8 @@ class Tracer:
                 parts.append(("call", path, args, (body.id, bb)))
             elif kind == "yield":
                 parts.append(("resume",))
+            elif kind == "swap":
+                parts.append(self.operand(blk.term.args[idx], seen2))
         # struct built by partial writes (e.g. _0.field = ...): ignored here; see partial_fields()
         if not parts:
             res = ("undef", l)
